@@ -1,6 +1,125 @@
-From Coq Require Import List Bool NArith.
-From MV Require Import Base.Bytes Model.Headers.
+(* Props/C35.v -- Header collections behave as a case-insensitive ordered multimap; serialising
+   valid header fields as HTTP/1 and parsing them back yields the same fields.
+   Statements only; each is closed by [exact] of a lemma proved elsewhere. The model functions
+   (get_all, set_all, delitem, insert, iter, len, eq, copy, run_ops, headers_bytes, _read_headers, ...)
+   are the ones executed against the real code by Corr/C35.v. No refuted part: the code satisfies the
+   property as stated (fields outside valid_field are characterised in design/C35.md). *)
+From Coq Require Import List Bool NArith ZArith.
+From MV Require Import Base.Bytes Model.Headers Model.MultimapSpec
+  Proofs.HeadersRefine Proofs.HeadersLaws Proofs.HeadersRoundtrip Proofs.HeadersSample.
 Import ListNotations.
-Theorem C35_tmp : iter [([x41],[x31])] = [[x41]].
-Proof. reflexivity. Qed.
-Print Assumptions C35_tmp.
+
+(* For every initial pair of header objects and every history of operations (lookup, membership,
+   assignment, delete, get_all, set_all, add, insert at any integer index, iteration, length, equality,
+   copy) the model of the Python code returns, at every step, the result of the abstract ordered
+   multimap with canonical (lower-cased) names and the same fields tuple (spelling, values, order);
+   the final states are related by the abstraction. *)
+Theorem C35_refinement : forall (ops : list op) (st : state),
+  s_run (abs_state st) ops = (fst (run_ops st ops), abs_state (snd (run_ops st ops))).
+Proof. exact run_refines. Qed.
+Print Assumptions C35_refinement.
+
+(* Case-insensitivity of whole histories: two histories that differ only in the case of names
+   (in the initial fields and in the operations' arguments) produce the same results (iteration
+   results up to case) and the same fields up to the case of names, at every step and at the end.
+   Equality of two objects compares spelling and is therefore excluded here (no_eq). *)
+Theorem C35_case_insensitive_histories : forall (ops ops' : list op) (st st' : state),
+  lf2 st = lf2 st' -> map lop ops = map lop ops' ->
+  forallb no_eq ops = true -> forallb no_eq ops' = true ->
+  map ci_obs (fst (run_ops st ops)) = map ci_obs (fst (run_ops st' ops'))
+  /\ lf2 (snd (run_ops st ops)) = lf2 (snd (run_ops st' ops')).
+Proof. exact histories_case_insensitive. Qed.
+Print Assumptions C35_case_insensitive_histories.
+
+(* Lookups depend on the name only through its lower-cased form. *)
+Theorem C35_lookup_case_insensitive : forall (fs : list field) (k k' : bytes),
+  lower k = lower k' ->
+  get_all fs k = get_all fs k' /\ getitem fs k = getitem fs k'
+  /\ contains fs k = contains fs k' /\ delitem fs k = delitem fs k'.
+Proof. exact lookup_case_insensitive. Qed.
+Print Assumptions C35_lookup_case_insensitive.
+
+(* set_all / __setitem__: afterwards the name holds exactly the new values in order, every other
+   name is unaffected ... *)
+Theorem C35_set_all_get_all : forall (fs : list field) (k : bytes) (vs : list bytes) (k' : bytes),
+  get_all (set_all fs k vs) k' = if bytes_eqb (lower k') (lower k) then vs else get_all fs k'.
+Proof. exact set_all_get_all. Qed.
+Print Assumptions C35_set_all_get_all.
+
+(* ... the untouched fields keep spelling, value and relative order ... *)
+Theorem C35_set_all_untouched : forall (fs : list field) (k : bytes) (vs : list bytes),
+  others k (set_all fs k vs) = others k fs.
+Proof. exact set_all_untouched. Qed.
+Print Assumptions C35_set_all_untouched.
+
+(* ... with at least as many values as existing fields of that name no field moves or is respelled
+   (the names at the old positions are unchanged; surplus values follow at the end) ... *)
+Theorem C35_set_all_keeps_spelling : forall (fs : list field) (k : bytes) (vs : list bytes),
+  length (get_all fs k) <= length vs ->
+  exists tail, map fst (set_all fs k vs) = map fst fs ++ tail.
+Proof. exact set_all_keeps_spelling. Qed.
+Print Assumptions C35_set_all_keeps_spelling.
+
+(* ... and assigning an absent name appends the fields at the end under the given spelling. *)
+Theorem C35_set_all_absent_appends : forall (fs : list field) (k : bytes) (vs : list bytes),
+  contains fs k = false -> set_all fs k vs = fs ++ map (fun v => (k, v)) vs.
+Proof. exact set_all_absent_appends. Qed.
+Print Assumptions C35_set_all_absent_appends.
+
+(* __delitem__: KeyError (None) exactly when the name is absent; otherwise the name is gone, the
+   other fields keep spelling, value and order, and lookups of other names are unchanged. *)
+Theorem C35_delitem : forall (fs : list field) (k : bytes),
+  match delitem fs k with
+  | None => contains fs k = false
+  | Some fs' => contains fs k = true /\ contains fs' k = false /\ others k fs' = others k fs
+                /\ forall k', lower k' <> lower k -> get_all fs' k' = get_all fs k'
+  end.
+Proof. exact delitem_law. Qed.
+Print Assumptions C35_delitem.
+
+(* insert at any integer index (Python slice semantics) and add: one new field, all old fields
+   keep their relative order. *)
+Theorem C35_insert : forall (fs : list field) (i : Z) (k v : bytes),
+  exists p, p <= length fs
+    /\ insert fs i k v = firstn p fs ++ (k, v) :: skipn p fs
+    /\ ((0 <= i <= Z.of_nat (length fs))%Z -> p = Z.to_nat i)
+    /\ ((- Z.of_nat (length fs) <= i < 0)%Z -> p = Z.to_nat (i + Z.of_nat (length fs))).
+Proof. exact insert_law. Qed.
+Print Assumptions C35_insert.
+
+Theorem C35_add : forall (fs : list field) (k v : bytes), add fs k v = fs ++ [(k, v)].
+Proof. exact add_eq. Qed.
+Print Assumptions C35_add.
+
+(* iteration yields every name present exactly once (ignoring case), each as spelled in some
+   field; len is the number of names iterated. *)
+Theorem C35_iter_len : forall (fs : list field),
+  NoDup (map lower (iter fs))
+  /\ (forall k, In (lower k) (map lower (iter fs)) <-> contains fs k = true)
+  /\ len fs = N.of_nat (length (iter fs))
+  /\ (forall k, In k (iter fs) -> In k (map fst fs)).
+Proof. exact iter_law. Qed.
+Print Assumptions C35_iter_len.
+
+(* HTTP/1 round trip: for every list of valid fields, bytes(headers) followed by the blank line,
+   cut into lines (h11) and parsed by _read_headers, is exactly the original list of fields. *)
+Theorem C35_roundtrip : forall (fs : list field),
+  forallb valid_field fs = true -> read_back fs = Some (RhOk fs).
+Proof. exact roundtrip. Qed.
+Print Assumptions C35_roundtrip.
+
+(* The hypotheses are satisfiable on non-trivial values: three valid fields with a repeated name in
+   two spellings round-trip; two different states/histories that agree up to case satisfy the
+   hypotheses of C35_case_insensitive_histories while their raw observations differ. *)
+Theorem C35_nonvacuous :
+  forallb valid_field sample_fields = true
+  /\ read_back sample_fields = Some (RhOk sample_fields)
+  /\ get_all sample_fields ACCEPT = [[x61]; [x62]]
+  /\ getitem sample_fields ACCEPT = Some [x61; x2c; x20; x62]
+  /\ lf2 (sample_fields, []) = lf2 (sample_fields', [])
+  /\ (sample_fields, @nil field) <> (sample_fields', [])
+  /\ map lop sample_ops = map lop sample_ops' /\ sample_ops <> sample_ops'
+  /\ forallb no_eq sample_ops = true /\ forallb no_eq sample_ops' = true
+  /\ fst (run_ops (sample_fields, []) sample_ops) <> fst (run_ops (sample_fields', []) sample_ops').
+Proof. exact sample_nonvacuous. Qed.
+Print Assumptions C35_nonvacuous.
